@@ -1129,3 +1129,81 @@ T('lock-release-hook-after-everything', ['C12'],
             except Exception:
                 pass
 """))
+T('bat-match-on-result-type', ['C04', 'C09'],
+  (A, """                    if isinstance(result, Exception):
+                        fut.set_exception(result)
+                    else:
+                        fut.set_result(result)
+""", """                    match result:
+                        case Exception():
+                            fut.set_exception(result)
+                        case _:
+                            fut.set_result(result)
+"""))
+T('cache-match-on-loop-state', ['C01', 'C05', 'C06', 'C14'],
+  (A, """                    if (caching_loop.is_closed()
+                            or not caching_loop.is_running()):
+                        raise KeyError  # Invalidate loop
+""", """                    match (caching_loop.is_closed(), caching_loop.is_running()):
+                        case (True, _) | (_, False):
+                            raise KeyError  # Invalidate loop
+"""))
+T('lock-match-on-timeout', ['C12', 'C02'],
+  (F, """        if timeout is None:
+            timeout = self.timeout if blocking else -1
+        else:
+            blocking = blocking if timeout < 0 else True
+""", """        match timeout:
+            case None:
+                timeout = self.timeout if blocking else -1
+            case _:
+                blocking = blocking if timeout < 0 else True
+"""))
+# --- idioms of maintenance pull requests (micro-optimisations, testability seams) ---------------------
+T('lock-module-seams-for-clock-and-sleep', ['C12', 'C02'],
+  (F, "_logger = logging.getLogger(__name__)\n", "_logger = logging.getLogger(__name__)\n_sleep = time.sleep\n_now = time.time\n"),
+  (F, "        start_time = time.time()\n", "        start_time = _now()\n"),
+  (F, "                elif 0 <= timeout < time.time() - start_time:\n", "                elif 0 <= timeout < _now() - start_time:\n"),
+  (F, "                    time.sleep(poll_interval)\n", "                    _sleep(poll_interval)\n"))
+T('lock-class-seams-for-clock-and-sleep', ['C12', 'C02'],
+  (F, "    def __init__(self,\n                 lock_file: PathLike,", "    _sleep = staticmethod(time.sleep)\n    _now = staticmethod(time.time)\n\n    def __init__(self,\n                 lock_file: PathLike,"),
+  (F, "        start_time = time.time()\n", "        start_time = self._now()\n"),
+  (F, "                elif 0 <= timeout < time.time() - start_time:\n", "                elif 0 <= timeout < self._now() - start_time:\n"),
+  (F, "                    time.sleep(poll_interval)\n", "                    self._sleep(poll_interval)\n"))
+T('lock-bound-release-in-a-local', ['C12'],
+  (F, """            for _ in range(levels):
+                self._thread_lock.release()
+""", """            release_level = self._thread_lock.release
+            for _ in range(levels):
+                release_level()
+"""))
+T('cache-event-factory-seam', ['C01', 'C05', 'C06', 'C14'],
+  (A, "    event_making_lock = Lock()\n", "    event_making_lock = Lock()\n    new_event = aio.Event\n"),
+  (A, "                    event = aio.Event()\n", "                    event = new_event()\n"))
+T('buf-bound-get-nowait-in-a-local', ['C03', 'C07', 'C08'],
+  (A, "                yield self.q.get_nowait()\n", "                yield get_nowait()\n"),
+  (A, "        while True:\n            try:\n                yield get_nowait()", "        get_nowait = self.q.get_nowait\n        while True:\n            try:\n                yield get_nowait()"))
+T('buf-queue-and-event-factories', ['C03', 'C07', 'C08'],
+  (A, "        self.q: 'aio.Queue[AsyncIterable[T]]' = aio.Queue()\n", "        self.q: 'aio.Queue[AsyncIterable[T]]' = self._make_queue()\n"),
+  (A, "    def _empty_queue(self) -> Yields[AsyncIterable[T]]:\n", "    def _make_queue(self) -> 'aio.Queue[AsyncIterable[T]]':\n        \"\"\"Seam for tests.\"\"\"\n        return aio.Queue()\n\n    def _empty_queue(self) -> Yields[AsyncIterable[T]]:\n"))
+T('bat-queue-factory-and-semaphore-seam', ['C04', 'C09', 'C10', 'C11', 'C15'],
+  (A, "        self._queue = aio.Queue()\n", "        self._queue = self._make_queue()\n"),
+  (A, "        self._semaphore = aio.Semaphore(value=max_concurrent_batches)\n", "        self._semaphore = self._semaphore_cls(value=max_concurrent_batches)\n"),
+  (A, "    async def _processing_loop(self) -> None:\n", "    _semaphore_cls = aio.Semaphore\n\n    def _make_queue(self) -> 'aio.Queue[Any]':\n        return aio.Queue()\n\n    async def _processing_loop(self) -> None:\n"))
+T('cache-role-enum-instead-of-bool', ['C01', 'C05', 'C06', 'C14'],
+  (A, "E = TypeVar('E', bound=BaseException)\n", "import enum\n\n\nclass _Role(enum.Enum):\n    OWNER = 'owner'\n    WAITER = 'waiter'\n\n\nE = TypeVar('E', bound=BaseException)\n"),
+  (A, "                    do_caching = True\n", "                    role = _Role.OWNER\n"),
+  (A, "                    do_caching = False  # Need to wait for other loop\n", "                    role = _Role.WAITER  # Need to wait for other loop\n"),
+  (A, "            if do_caching:  # No other task to wait for, cache the value\n", "            if role is _Role.OWNER:  # No other task to wait for, cache the value\n"))
+T('cache-role-strings-instead-of-bool', ['C01', 'C05', 'C06', 'C14'],
+  (A, "                    do_caching = True\n", "                    role = 'owner'\n"),
+  (A, "                    do_caching = False  # Need to wait for other loop\n", "                    role = 'waiter'  # Need to wait for other loop\n"),
+  (A, "            if do_caching:  # No other task to wait for, cache the value\n", "            if role == 'owner':  # No other task to wait for, cache the value\n"))
+T('bat-queue-entries-frozen-dataclass', ['C04', 'C09', 'C10', 'C11'],
+  (A, "E = TypeVar('E', bound=BaseException)\n", "import dataclasses\n\n\n@dataclasses.dataclass(frozen=True)\nclass _Entry:\n    key: Any\n    arg: Any\n    fut: Any\n\n\nE = TypeVar('E', bound=BaseException)\n"),
+  (A, "        await self._queue.put((key, arg, fut))\n", "        await self._queue.put(_Entry(key, arg, fut))\n"),
+  (A, "        args = [t[:2] for t in tasks]\n        futs = {k: f for k, _, f in tasks}\n", "        args = [(t.key, t.arg) for t in tasks]\n        futs = {t.key: t.fut for t in tasks}\n"))
+T('lock-cannot-happen-assertion-in-release', ['C12', 'C02'],
+  (F, "        self._decrement_lock_counter()\n        levels = 1", "        if self._lock_counter < 0:\n            raise AssertionError('lock counter underflow')\n        self._decrement_lock_counter()\n        levels = 1"))
+T('bat-asserts-and-narrowing', ['C04', 'C09', 'C10', 'C11'],
+  (A, "        args = [t[:2] for t in tasks]\n", "        assert tasks, 'never called with an empty batch'\n        if self._semaphore is None:\n            raise AssertionError('semaphore not initialised')\n        args = [t[:2] for t in tasks]\n"))
